@@ -218,10 +218,13 @@ def run_case(ctx, sc, req, allowed, variant, rnd):
         try:
             with warnings.catch_warnings():
                 warnings.simplefilter('ignore')
+                from astropy.io import fits
+                hdr = fits.getheader(path, 1)
                 if 'header' in opts:
-                    from astropy.io import fits
-                    if fits.getheader(path, 1).get('OBSERVER') != opts['header']['OBSERVER']:
+                    if hdr.get('OBSERVER') != opts['header']['OBSERVER']:
                         return False
+                elif 'OBSERVER' in hdr:
+                    return False          # a card given to an EARLIER call: the file is not what this call's options say
                 return same_regions(Regions.read(path, format='fits'), parsed)
         except Exception:  # noqa
             return False
